@@ -18,7 +18,7 @@ import join as joinmod
 import props
 
 CXX = 'clang++'
-BASE_FLAGS = ['-std=c++14', '-O1', '-g', '-fno-omit-frame-pointer', '-DHFSM2_VERIF', '-Wno-unused-value']
+BASE_FLAGS = ['-std=c++14', '-O1', '-g', '-fno-omit-frame-pointer', '-DHFSM2_VERIF', '-Wno-unused-value', '-Wno-ignored-reference-qualifiers']
 SAN_FLAGS = ['-fsanitize=address,undefined', '-fno-sanitize-recover=undefined']
 NCPU = os.cpu_count() or 4
 
@@ -84,6 +84,15 @@ def build_one(spec, flavour):
     try:
         if os.path.exists(out):
             return out, ''
+        if spec.get('machine'):
+            import structgen
+            mname, mspec = spec['machine']
+            hp = os.path.join(BUILD, 'gen', mname + '.hpp')
+            text = structgen.header(mname, mspec)
+            if not os.path.exists(hp) or open(hp).read() != text:
+                with open(hp + '.tmp%d' % os.getpid(), 'w') as fh:
+                    fh.write(text)
+                os.rename(hp + '.tmp%d' % os.getpid(), hp)
         inc = ['-I' + os.path.join(REPO, 'include')] if flavour == 'single' else ['-I' + os.path.join(REPO, 'development'), '-DHV_DEV_FLAVOUR']
         flags = list(BASE_FLAGS)
         if spec.get('std'):
